@@ -111,7 +111,7 @@ def run(chk, facts):
     allowed = {"check::constrain::generate::generate", "check::constrain::generate::call::gen_call"}
     for h in handlers:
         chk.ob("R-C07-1", f"handler:{h}", h in allowed, f"{h} has an arm for Node::Reassign" + ("" if h in allowed else " - a second handler bypasses the mutability check"))
-    chk.floor("R-C07-1", len(handlers), 2, "functions with a Node::Reassign arm in check::constrain::generate")
+    chk.floor("R-C07-1", len(handlers), 1, "functions with a Node::Reassign arm in check::constrain::generate")
 
     # ---------------- R-C07-6 ----------------
     # every written name is looked at: the chain from `id.fields(..)` to the collected errors has no adapter that can drop an
@@ -159,7 +159,7 @@ def run(chk, facts):
                 ok, why = _flag_ok(fn, a)
                 chk.ob("R-C07-3", f"{fn['qual']}|{src(a)}|{_ordinal(fn, n)}", ok,
                        f"{fn['qual']}: insert_var records mutability `{src(a)}`: {why}", facts.loc_of(fn))
-    chk.floor("R-C07-3", n_sites, 5, "Environment::insert_var call sites")
+    chk.floor("R-C07-3", n_sites, 3, "Environment::insert_var call sites")
     # the identifier's own flags come from Identifier::as_mutable(mutable) in id_from_var
     idv = syn.one_fn("id_from_var", mod="check::constrain::generate::definition")
     am = [n for n in walk(idv["body"]) if n.get("k") == "mcall" and n["m"] == "as_mutable"]
